@@ -31,6 +31,15 @@ Leg "conc" (DESIGN 4/C15 b)
     through generation options, log / streaming requests, and an LLM object that keeps its parameters either in real fields
     (`temperature`, `max_tokens`) or in `model_kwargs`.
 
+Reporting.  Every departure found in a case is collected; the one raised is the first that does NOT carry the signature of a
+finding known on the unchanged tree (see `known`), so a listed finding cannot hide anything else.  Violation kinds are root-cause
+buckets computed from the observations: `cache-key-collision` (divergence at/after a request that the cache model flags),
+`seq-<what>` / `conc-<what>` (divergence of reply / prompts / returned-log / stream with no such signature), `llm-params-leak`
+(parameter at call start), `llm-params-changed-during-call` (at call end), `llm-params-not-restored` and
+`llm-params-none-left-in-model-kwargs` (parameters at rest).  Overlap of LLM calls is measured in *ticks* (the order of the
+harness's observation points), which refines virtual time: LangChain's agenerate yields to the loop even with zero latency.
+A violation is re-checked by running the whole case a second time from scratch (same kind required, else harness error).
+
 Nothing here edits vf.fakes / vf.pipeline; the module subclasses `Session`, `ScriptedLLM` and `Pipeline`.
 """
 import asyncio
